@@ -205,7 +205,7 @@ func removeReferrer(v ssa.Value, in ssa.Instruction) {
 }
 
 func isTransparent(g *ssa.Function) bool {
-	if g == nil || len(g.Blocks) == 0 || g.Synthetic != "" || g.Recover != nil {
+	if g == nil || len(g.Blocks) == 0 || g.Synthetic != "" {
 		return false
 	}
 	if g.Pkg == nil || !(g.Pkg.Pkg.Path() == modPath || strings.HasPrefix(g.Pkg.Pkg.Path(), modPath+"/")) {
@@ -227,9 +227,13 @@ func isTransparent(g *ssa.Function) bool {
 		n += len(b.Instrs)
 		for _, in := range b.Instrs {
 			switch x := in.(type) {
-			case *ssa.Defer, *ssa.RunDefers, *ssa.Select:
+			case *ssa.Select:
 				return false
 			case *ssa.Call:
+				// recover() makes the function's result depend on panics: a unit of its own
+				if bi, ok := x.Call.Value.(*ssa.Builtin); ok && bi.Name() == "recover" {
+					return false
+				}
 				// a function that takes a lock is a unit of its own (the lock rules reason about who calls it)
 				if cn := calleeName(x); strings.HasPrefix(cn, "(*sync.RWMutex).") || strings.HasPrefix(cn, "(*sync.Mutex).") {
 					return false
@@ -408,16 +412,29 @@ func (il *inliner) inlineCall(f *ssa.Function, c *ssa.Call) {
 	// clone blocks
 	bmap := map[*ssa.BasicBlock]*ssa.BasicBlock{}
 	var nblocks []*ssa.BasicBlock
+	// A callee with deferred calls: its Defer instructions are kept (in the model the deferred calls run when the
+	// caller returns, i.e. later than in reality; functions that lock are never inlined, so no lock is believed
+	// held longer than it is), its RunDefers and the block entered after a recovered panic are dropped.
+	var gblocks []*ssa.BasicBlock
 	for _, gb := range g.Blocks {
+		if gb == g.Recover {
+			continue
+		}
+		gblocks = append(gblocks, gb)
+	}
+	for _, gb := range gblocks {
 		nb := &ssa.BasicBlock{Comment: "inl:" + g.Name() + ":" + gb.Comment}
 		setUnexported(nb, "parent", f)
 		bmap[gb] = nb
 		nblocks = append(nblocks, nb)
 	}
 	var clones []ssa.Instruction
-	for _, gb := range g.Blocks {
+	for _, gb := range gblocks {
 		nb := bmap[gb]
 		for _, in := range gb.Instrs {
+			if _, isRD := in.(*ssa.RunDefers); isRD {
+				continue
+			}
 			cl := cloneInstr(in)
 			setUnexported(cl, "block", nb)
 			if v, ok := in.(ssa.Value); ok {
